@@ -152,6 +152,83 @@ pub fn read_transcript<F: Fl>(n: usize, conns: &[(K, K)], seed: u64, equal_vals:
     t
 }
 
+/// A lighter transcript for bigger graphs: observation, every traversal kind
+/// (x transpose x {no target, last node} x every terminal) from three roots with
+/// a recording closure, scc, DOT and the serialised forms.
+pub fn light_transcript<F: Fl>(n: usize, conns: &[(K, K)], vals: &[i8]) -> Transcript {
+    let mut t: Transcript = Vec::new();
+    let w = build_world::<F>(vals, conns);
+    t.push(("observe".into(), g(w.observe().map(|o| strip(&o)))));
+    let mut roots = vec![0usize, n / 2, n - 1];
+    roots.sort();
+    roots.dedup();
+    for root in roots {
+        for kind in crate::flavor::ALL_KINDS {
+            for transpose in if F::DIRECTED { vec![false, true] } else { vec![false] } {
+                let targets: Vec<Option<K>> = if kind.is_order() { vec![None] } else { vec![None, Some((n - 1) as K), Some(root as K)] };
+                for target in targets {
+                    let ress: Vec<ResK> = if kind.is_order() { vec![ResK::Nodes, ResK::Edges] } else if target.is_none() { vec![ResK::Search, ResK::Cycle] } else { vec![ResK::Search, ResK::Path] };
+                    for res in ress {
+                        for alt in [false, true] {
+                            let cfg = Cfg { kind, transpose, target, meth: Meth::ForEach, res, alt };
+                            t.push((format!("n{}.{}", root, cfg.describe()), g(exec::<F>(&w, root as K, &cfg, &[]))));
+                        }
+                    }
+                }
+            }
+        }
+    }
+    let order: Vec<K> = (0..n as K).collect();
+    let gr = container::<F>(&w, &order, 5);
+    t.push(("graph.scc".into(), g(guarded(|| F::g_scc(&gr).map(|c| c.iter().map(|b| b.iter().map(F::key).collect::<BTreeSet<K>>()).collect::<BTreeSet<_>>())))));
+    t.push(("graph.to_dot".into(), g(guarded(|| normalise_dot(&F::g_to_dot(&gr))))));
+    t.push(("serde.json".into(), g(guarded(|| F::g_to_json(&gr).map(|s| normalise_doc(&serde_json::from_str::<Value>(&s).unwrap_or(Value::Null)))))));
+    t
+}
+
+/// The bigger graphs of the light mode: (name, n, conns, node values).
+pub fn light_graphs(nmax: usize, heap_k: usize) -> Vec<(String, usize, Vec<(K, K)>, Vec<i8>)> {
+    let mut v = Vec::new();
+    for (name, n, conns) in crate::gsweep::large_graphs(nmax) {
+        v.push((name.clone(), n, conns.clone(), (0..n).map(|k| default_val(k as K)).collect()));
+        if n == nmax {
+            v.push((format!("{} [descending values]", name), n, conns.clone(), (0..n).map(|k| (n - k) as i8).collect()));
+            v.push((format!("{} [equal values]", name), n, conns, vec![0; n]));
+        }
+    }
+    // priority-queue family (see gsweep::heap_sweep): every arrival order of distinct values
+    let k = heap_k;
+    let n = 1 + 2 * k;
+    let mut conns: Vec<(K, K)> = (1..=k).map(|i| (0, i as K)).collect();
+    conns.extend((1..=k).map(|i| (i as K, (k + i) as K)));
+    let m = 2 * k;
+    let mut a: Vec<i8> = (1..=m as i8).collect();
+    let mut c = vec![0usize; m];
+    let mut perms = vec![a.clone()];
+    let mut i = 0;
+    while i < m {
+        if c[i] < i {
+            if i % 2 == 0 {
+                a.swap(0, i);
+            } else {
+                a.swap(c[i], i);
+            }
+            perms.push(a.clone());
+            c[i] += 1;
+            i = 0;
+        } else {
+            c[i] = 0;
+            i += 1;
+        }
+    }
+    for pm in perms {
+        let mut vals = vec![0i8];
+        vals.extend(pm);
+        v.push((format!("heap{} values {:?}", k, vals), n, conns.clone(), vals));
+    }
+    v
+}
+
 fn first_difference(a: &Transcript, b: &Transcript) -> Option<(String, String, String)> {
     for i in 0..a.len().max(b.len()) {
         match (a.get(i), b.get(i)) {
@@ -181,11 +258,12 @@ fn label_class(label: &str) -> String {
         }
     }
     // drop the root index
-    let out = if out.starts_with('n') && out.chars().nth(1).map_or(false, |c| c.is_ascii_digit()) && out.chars().nth(2) == Some('.') {
-        out[3..].to_string()
-    } else {
-        out
-    };
+    if out.starts_with('n') {
+        let digits = out[1..].chars().take_while(|c| c.is_ascii_digit()).count();
+        if digits > 0 && out[1 + digits..].starts_with('.') {
+            return out[2 + digits..].to_string();
+        }
+    }
     out
 }
 
@@ -234,6 +312,33 @@ pub fn sweep_pair<P: Fl, S: Fl>(job: &Job, out: &mut Out) {
                     what: format!("graph {:?}: `{}` gives {} on {} but {} on {}", conns, label, x, P::NAME, y, S::NAME),
                     case: json!({"kind":"lockstep-read","flavour":S::NAME,"n":p.n,"conns":conns}),
                     order: (conns.len() * 10 + p.n) as u64,
+                });
+            }
+        }
+        return;
+    }
+    if p.mode == "light" {
+        for (gi, (name, n, conns, vals)) in light_graphs(p.n, p.max_l).iter().enumerate() {
+            if gi % job.nshards != job.shard {
+                continue;
+            }
+            crate::progress::set_case(|| json!({"kind":"lockstep-light","flavour":S::NAME,"n":n,"conns":conns,"vals":vals}).to_string());
+            let a = light_transcript::<P>(*n, conns, vals);
+            crate::progress::tick();
+            let b = light_transcript::<S>(*n, conns, vals);
+            out.stats.inc("shapes");
+            out.stats.max("max_nodes", *n as u64);
+            out.stats.add("evaluations", a.len() as u64);
+            out.stats.add("nontrivial", a.len() as u64);
+            if let Some((label, x, y)) = first_difference(&a, &b) {
+                out.report(Violation {
+                    property: prop.into(),
+                    engine: "lockstep".into(),
+                    flavour: S::NAME.into(),
+                    class: format!("diverge/{}", label_class(&label)),
+                    what: format!("graph {} ({} nodes, edges {:?}, values {:?}): `{}` gives {} on {} but {} on {}", name, n, conns, vals, label, x, P::NAME, y, S::NAME),
+                    case: json!({"kind":"lockstep-light","flavour":S::NAME,"n":n,"conns":conns,"vals":vals}),
+                    order: (1000 + conns.len() * 10 + n) as u64,
                 });
             }
         }
@@ -311,6 +416,17 @@ pub fn sweep_pair<P: Fl, S: Fl>(job: &Job, out: &mut Out) {
 pub fn replay_pair<P: Fl, S: Fl>(prop: &str, case: &Value) -> Vec<Violation> {
     let mut out = Out::new();
     let n = case["n"].as_u64().unwrap() as usize;
+    if case["kind"] == "lockstep-light" {
+        let conns: Vec<(K, K)> = serde_json::from_value(case["conns"].clone()).unwrap();
+        let vals: Vec<i8> = serde_json::from_value(case["vals"].clone()).unwrap();
+        let a = light_transcript::<P>(n, &conns, &vals);
+        let b = light_transcript::<S>(n, &conns, &vals);
+        println!("  {} transcript entries", a.len());
+        if let Some((label, x, y)) = first_difference(&a, &b) {
+            out.report(Violation { property: prop.into(), engine: "lockstep".into(), flavour: S::NAME.into(), class: format!("diverge/{}", label_class(&label)), what: format!("`{}` gives {} on {} but {} on {}", label, x, P::NAME, y, S::NAME), case: case.clone(), order: 0 });
+        }
+        return out.viols.into_values().collect();
+    }
     if case["kind"] == "lockstep-read" {
         let conns: Vec<(K, K)> = serde_json::from_value(case["conns"].clone()).unwrap();
         let mut a = read_transcript::<P>(n, &conns, 5, false);
